@@ -163,8 +163,9 @@ static OrcProgram *gen_build (ProgSpec *ps)
     const RefOp *op = gen_op (in);
     int args[4] = { 0, 0, 0, 0 }, na = 0, k;
     unsigned flags = in->mult == 2 ? ORC_INSTRUCTION_FLAG_X2 : in->mult == 4 ? ORC_INSTRUCTION_FLAG_X4 : 0;
-    for (k = 0; k < 2; k++) if (op->dsz[k]) args[na++] = ps->vars[in->dest[k]].orcvar;
-    for (k = 0; k < 4 && na < 4; k++) if (op->ssz[k]) args[na++] = ps->vars[in->src[k]].orcvar;
+    /* (mutated specs may lack operands: any variable slot will do, the compiler has to cope) */
+    for (k = 0; k < 2; k++) if (op->dsz[k]) args[na++] = (in->dest[k] >= 0 && in->dest[k] < ps->nvars) ? ps->vars[in->dest[k]].orcvar : ORC_VAR_D1;
+    for (k = 0; k < 4 && na < 4; k++) if (op->ssz[k]) args[na++] = (in->src[k] >= 0 && in->src[k] < ps->nvars) ? ps->vars[in->src[k]].orcvar : ORC_VAR_S1;
     orc_program_append_2 (p, op->name, flags, args[0], args[1], args[2], args[3]);
   }
   return p;
@@ -237,10 +238,10 @@ static void gen_print_orc (const ProgSpec *ps, VhBuf *b, const GenPrintStyle *st
     if (in->mult > 1) vh_buf_printf (b, "x%d%s", in->mult, sp);
     vh_buf_printf (b, "%s%s", op->name, sp);
     for (k = 0; k < 2; k++) if (op->dsz[k]) {
-      vh_buf_printf (b, "%s%s", first ? "" : (st->spaces_after_comma ? ", " : ","), ps->vars[in->dest[k]].name); first = 0;
+      vh_buf_printf (b, "%s%s", first ? "" : (st->spaces_after_comma ? ", " : ","), in->dest[k] >= 0 ? ps->vars[in->dest[k]].name : "?"); first = 0;
     }
     for (k = 0; k < 4; k++) if (op->ssz[k]) {
-      vh_buf_printf (b, "%s%s", first ? "" : (st->spaces_after_comma ? ", " : ","), ps->vars[in->src[k]].name); first = 0;
+      vh_buf_printf (b, "%s%s", first ? "" : (st->spaces_after_comma ? ", " : ","), in->src[k] >= 0 ? ps->vars[in->src[k]].name : "?"); first = 0;
     }
     vh_buf_printf (b, "%s", nl);
   }
